@@ -600,6 +600,23 @@ class Check(PropertyCheck):
         rig = Rig(2, 2, stream_req=st, stream_resp=st, server_settings=ss or None, client_settings=cs or None,
                   peer_cls=AccountingPeer)
         w, cp = rig.w, rig.cpeer
+        # tie of `route` / `applyLayerOp` (HttpLayer.streams): every make_stream, DropStream and lookup of the real layer
+        lops = []
+
+        class StreamTable(dict):
+            def _snap(self): return [f"{k}>{v.stream_id}" for k, v in self.items()]
+            def __setitem__(self, k, v):
+                dict.__setitem__(self, k, v); lops.append((f"L make {k}", "S=" + jo(self._snap())))
+            def pop(self, k, *d):
+                r = dict.pop(self, k, *d); lops.append((f"L drop {k}", "S=" + jo(self._snap()))); return r
+            def __getitem__(self, k):
+                try:
+                    v = dict.__getitem__(self, k)
+                except KeyError:
+                    lops.append((f"L route {k}", "R=-")); raise
+                lops.append((f"L route {k}", f"R={v.stream_id}")); return v
+        assert w.layer.streams == {}
+        w.layer.streams = StreamTable()
         sent = {i: {"headers": False, "body": b"", "trailers": False, "ended": False, "reset": False} for i in range(n)}
         answered = {}      # upstream stream id -> {"status", "body", "ended", "reset"}
         dead = {"server": False}
@@ -772,7 +789,7 @@ class Check(PropertyCheck):
                 "flows": flows, "crash": [e[0] + ": " + e[1][:100] for e in w.errors], "dead": dead["server"], "slots": slots,
                 "tap": [{"in": r["in"], "bytes_hex": hx(r["bytes"]), "ups": r["ups"], "q": r["q"], "m": r["m"], "o": r["o"], "b": r["b"],
                          "closed": r["closed"], "exc": r["exc"]} for r in log],
-                "nclients": len(TAP["clients"]), "drained": bool(case.get("drain", 1))}
+                "nclients": len(TAP["clients"]), "drained": bool(case.get("drain", 1)), "lops": [list(x) for x in lops]}
 
     def oracle_layer(self, case, obs):
         fails = []
@@ -913,7 +930,8 @@ class Check(PropertyCheck):
         lines = ["reset"]
         for r in obs["tap"]:
             if r["in"] is not None: lines.append(r["in"])
-        return lines
+        # HttpLayer.streams has its own state in the driver: its operations are replayed after the client's
+        return lines + [x[0] for x in obs["lops"]]
 
     _memo = (None, None)
 
@@ -939,7 +957,7 @@ class Check(PropertyCheck):
                        # the hypotheses of the theorems (Good, Good2), evaluated by the model driver on every event the
                        # real HttpStream handed to Http2Client: they must hold
                        + (" G=11" if r["in"].startswith("c ") else ""))
-        return [self._canon(x) for x in out]
+        return [self._canon(x) for x in out] + [x[1] for x in obs["lops"]]
 
     @staticmethod
     def _canon(line):
